@@ -106,6 +106,13 @@ theorem parenOKList_mono {a b : Nat} (hab : a ≤ b) : ∀ xs, parenOKList b xs 
     simp only [parenOKList, Bool.and_eq_true, decide_eq_true_eq] at h ⊢
     exact ⟨⟨Nat.le_trans hab h.1.1, h.1.2⟩, parenOKList_mono hab xs h.2⟩
 
+theorem two_le_length {α} {l : List α} (h0 : l = [] → False) (h1 : ∀ v, l = [v] → False) :
+    2 ≤ l.length := by
+  match l, h0, h1 with
+  | [], h0, _ => exact absurd rfl h0
+  | [v], _, h1 => exact absurd rfl (h1 v)
+  | _ :: _ :: _, _, _ => simp
+
 theorem isNumber_false_of {e : Expr} {x : PyExpr} (g : Good e x) (h : e.kind ≠ .Constant) :
     x.isNumber = false := by
   cases hx : x.isNumber
@@ -215,7 +222,7 @@ mutual
         Nat.le_trans (by decide) (level_parenUnless (need := 3) (by decide) tbl_implication gc.level)
       have h3 : 2 ≤ (PyExpr.not (parenUnless Gen.PyEmit.implication a a')).level := by simp [PyExpr.level]
       simp only [parenOK, parenOKList, Bool.and_eq_true, decide_eq_true_eq, Bool.and_true]
-      exact ⟨⟨h3, h1, ok_parenUnless ga.ok⟩, h2, ok_parenUnless gc.ok⟩
+      exact ⟨by simp, ⟨h3, h1, ok_parenUnless ga.ok⟩, h2, ok_parenUnless gc.ok⟩
     | .methodCall inst n args, vs, x, hs, h => by
       simp only [transpile, Res.bind_eq_ok] at h
       obtain ⟨i', hi, as', has, h⟩ := h
@@ -284,8 +291,10 @@ mutual
       · cases h
         simp only [parenOKList, Bool.and_eq_true, decide_eq_true_eq, Bool.and_true] at gv
         exact ⟨gv.1.2, by simpa [kindLevel, Expr.kind] using gv.1.1, fun hn => by simp [gv.2] at hn⟩
-      · cases h
-        exact ⟨by simpa [parenOK] using parenOKList_mono (by decide) _ gv.1, by simp [PyExpr.level, kindLevel, Expr.kind], by simp [PyExpr.isNumber]⟩
+      · next hne1 hne2 =>
+        cases h
+        have hlen : 2 ≤ vals.length := two_le_length hne1 hne2
+        exact ⟨by simpa [parenOK, hlen] using parenOKList_mono (by decide) _ gv.1, by simp [PyExpr.level, kindLevel, Expr.kind], by simp [PyExpr.isNumber]⟩
     | .or es, vs, x, hs, h => by
       simp only [transpile, Res.bind_eq_ok] at h
       obtain ⟨vals, hv, h⟩ := h
@@ -296,8 +305,10 @@ mutual
       · cases h
         simp only [parenOKList, Bool.and_eq_true, decide_eq_true_eq, Bool.and_true] at gv
         exact ⟨gv.1.2, by simpa [kindLevel, Expr.kind] using gv.1.1, fun hn => by simp [gv.2] at hn⟩
-      · cases h
-        exact ⟨by simpa [parenOK] using parenOKList_mono (by decide) _ gv.1, by simp [PyExpr.level, kindLevel, Expr.kind], by simp [PyExpr.isNumber]⟩
+      · next hne1 hne2 =>
+        cases h
+        have hlen : 2 ≤ vals.length := two_le_length hne1 hne2
+        exact ⟨by simpa [parenOK, hlen] using parenOKList_mono (by decide) _ gv.1, by simp [PyExpr.level, kindLevel, Expr.kind], by simp [PyExpr.isNumber]⟩
     | .add l r, vs, x, hs, h => by
       simp only [transpile, Res.bind_eq_ok] at h
       obtain ⟨l', hl, r', hr, h⟩ := h
